@@ -51,6 +51,9 @@ type RemoteParams struct {
 	Preload   []int      `json:"preload,omitempty"`       // nodes stored in the repository beforehand
 	PreOther  []int      `json:"preload_other,omitempty"` // blobs stored in the sibling repository (mount source)
 	PlainHTTP bool       `json:"plain_http,omitempty"`
+	// MMT: Repository.ManifestMediaTypes. When set, content of any other media type is
+	// routed to the blob endpoints, manifests included.
+	MMT []string `json:"manifest_media_types,omitempty"`
 	SkipGC    bool       `json:"skip_referrers_gc,omitempty"`
 	Fault     *NetFault  `json:"fault,omitempty"`
 	// FaultPick: when set (and Fault is nil) the fault is placed on the FaultPick-th exchange (modulo)
@@ -105,6 +108,16 @@ func (p *remoteProp) Gen(r *Rand, tier string, idx int) any {
 		rp.Profile.DigestHeader = true
 	}
 	rp.PlainHTTP = r.Bool()
+	if r.Chance(0.2) {
+		// every set contains the OCI index type: the referrers tag schema stores its
+		// indexes under it, and a client that does not accept it cannot read them back
+		rp.MMT = pick(r, [][]string{
+			{mtOCIManifest, mtOCIIndex},
+			{mtOCIManifest, mtOCIIndex, mtArtifact},
+			{mtOCIIndex, mtDockerManifest, mtDockerList},
+			{mtOCIIndex, mtOCIManifest, mtDockerManifest},
+		})
+	}
 	rp.SkipGC = r.Chance(0.3)
 	for i, n := range g.Nodes {
 		hasSubject := n.IsManif && n.Spec.Subject >= 0
@@ -241,8 +254,29 @@ func (p *remoteProp) Run(rc *RunCtx, sc *Scenario) *RunInfo {
 
 // placeFault runs the history fault-free on a scratch registry, picks one of the
 // exchanges it performed and a fault kind that suits it.
+// routeGraph applies Repository.ManifestMediaTypes to the universe: a manifest whose
+// media type is not listed travels through the blob endpoints and is, for the registry
+// and therefore for the oracle, a blob.
+func routeGraph(g *Graph, mmt []string) {
+	if len(mmt) == 0 {
+		return
+	}
+	for _, n := range g.Nodes {
+		listed := false
+		for _, m := range mmt {
+			if m == n.Desc.MediaType {
+				listed = true
+			}
+		}
+		if n.IsManif && !listed {
+			n.IsManif = false
+		}
+	}
+}
+
 func (p *remoteProp) placeFault(rc *RunCtx, rp *RemoteParams) {
 	g := rp.Graph.Build()
+	routeGraph(g, rp.MMT)
 	reg := NewSimRegistry(simHost, rp.Profile)
 	reg.Known[simRepo], reg.Known[simOther] = true, true
 	preloadRegistry(reg, g, simRepo, rp.Preload)
@@ -253,6 +287,7 @@ func (p *remoteProp) placeFault(rc *RunCtx, rp *RemoteParams) {
 	}
 	repo.Client = &http.Client{Transport: reg}
 	repo.PlainHTTP, repo.SkipReferrersGC = rp.PlainHTTP, rp.SkipGC
+	repo.ManifestMediaTypes = rp.MMT
 	scratch := &remoteProp{uncertain: map[string]bool{}}
 	n := 0
 	simrt.Run(rc.ScratchConfig(), func() {
@@ -332,6 +367,7 @@ func regStateHash(reg *SimRegistry, repo string) uint64 {
 func (p *remoteProp) run(rc *RunCtx, rp *RemoteParams, info *RunInfo) *Verdict {
 	ctx := context.Background()
 	g := rp.Graph.Build()
+	routeGraph(g, rp.MMT)
 	reg := NewSimRegistry(simHost, rp.Profile)
 	reg.Known[simRepo], reg.Known[simOther] = true, true
 	preloadRegistry(reg, g, simRepo, rp.Preload)
@@ -346,6 +382,10 @@ func (p *remoteProp) run(rc *RunCtx, rp *RemoteParams, info *RunInfo) *Verdict {
 	repo.Client = &http.Client{Transport: reg}
 	repo.PlainHTTP = rp.PlainHTTP
 	repo.SkipReferrersGC = rp.SkipGC
+	repo.ManifestMediaTypes = rp.MMT
+	if len(rp.MMT) > 0 {
+		info.Probes["manifest_media_types_restricted"]++
+	}
 
 	var v *Verdict
 	okOps := 0
